@@ -95,7 +95,11 @@ def make_case(rng, site, mode):
         for a in msg["args"]:
             uses[a["slot"]] = (a["ty"], True)
     for r in site["record"]:
-        uses[r["slot"]] = (r["ty"], False)
+        if r["set"]:
+            for e in r["entries"]:
+                uses[e["slot"]] = (e["ty"], False)
+        else:
+            uses[r["slot"]] = (r["ty"], False)
     slots = [gen_slot(rng, *uses.get(i, ("u8", False))) for i in range(site["nslots"])]
     for s in slots:
         for k in ("canon", "disp", "dbg"):
